@@ -703,7 +703,17 @@ class Space:
         timeout_ms = timeout_ms or self.timeout_ms
         extra = list(extra)
         lin = [a for a in self.pc if _is_linear(a)]
-        if len(lin) < len(self.pc) or not all(_is_linear(e) for e in extra):
+        all_lin = len(lin) == len(self.pc) and all(_is_linear(e) for e in extra)
+        if all_lin:
+            r, s = self._solve("QF_LRA", self.pc + extra, timeout_ms)
+            if r == z3.unsat:
+                self.n_unsat += 1
+                return "unsat"
+            if r == z3.sat:
+                self.n_sat += 1
+                self.last_model = s.model()
+                return "sat"
+        else:
             lin_extra = [e for e in extra if _is_linear(e)]
             if lin_extra or not extra:
                 r, _ = self._solve("QF_LRA", lin + lin_extra, 2000)
@@ -742,8 +752,6 @@ class Space:
         r = self.check()
         if r == "unsat":
             raise PathAbort("assumption infeasible")
-        if r == "unknown":
-            raise Inconclusive("assumption feasibility unknown")
 
     # --- forking
     def branch(self, cond):
